@@ -87,14 +87,22 @@ for _nm in ("2h_2h", "1_1h", "0_2", "2_0"):
 DISP_MODELS = [("src/boolean/fill_queue.rs", "fill_queue", "crate::boolean::verif_kani::h_disp::fill_queue_model"),
                ("src/boolean/subdivide_segments.rs", "subdivide", "crate::boolean::verif_kani::h_disp::subdivide_model"),
                ("src/boolean/connect_edges.rs", "connect_edges", "crate::boolean::verif_kani::h_disp::connect_edges_model")]
-for nm, txt in (("poly_poly", "Polygon x Polygon"), ("poly_multi0", "Polygon x empty MultiPolygon"), ("poly_multi2", "Polygon x MultiPolygon of 2"),
-                ("multi0_multi0", "empty x empty MultiPolygon"), ("multi2_multi1", "MultiPolygon of 2 x MultiPolygon of 1"), ("multi0_multi2", "empty MultiPolygon x MultiPolygon of 2"),
-                ("multi0_poly", "empty MultiPolygon x Polygon"), ("multi2_poly", "MultiPolygon of 2 x Polygon"),
-                ("named_methods", "intersection/union/xor/difference convenience methods")):
-    reg(f"dispatch_{nm}", file="boolean/h_disp.rs", props={"C01": "quick", "C06": "quick", "C07": "quick", "C02": "quick"}, lemma="L-DISP", inst="f64", unwind=4,
-        est_s=60, cap_s=1200, mem_gb=16, native_models=DISP_MODELS,
-        domain="operands of concrete sizes (0..2 marked polygons), all operations symbolic; callee models: fill_queue (boxes: untouched for an operand without polygons, else arbitrary valid box in {0..7}^4 or untouched), subdivide (recorder), connect_edges (one of five concrete forest templates)",
-        claim=f"{txt}: one call of the common routine with (self, rhs) as (subject, clipping); sweep skipped iff the boxes are disjoint (touching boxes sweep); shortcut returns empty / subject / subject++clipping; assembly emits one polygon per exterior contour with exactly its listed holes")
+DISP = dict(file="boolean/h_disp.rs", lemma="L-DISP", inst="f64", unwind=4, est_s=120, cap_s=1500, mem_gb=20, native_models=DISP_MODELS)
+DISP_DOM = ("concrete operand sizes, operation symbolic; callee models: fill_queue (boxes: untouched for an operand without polygons, else arbitrary valid box in {0..7}^4 or untouched; "
+            "restricted to disjoint / non-disjoint boxes where the harness name says shortcut / sweep), subdivide (recorder), connect_edges (concrete forest template)")
+reg("dispatch_predicate", props={"C01": "quick", "C06": "quick", "C09": "thorough"}, domain=DISP_DOM,
+    claim="Polygon x Polygon, all boxes, all operations: the sweep is skipped iff the two boxes are disjoint on some axis (strictly: boxes that merely touch are swept); the shortcut returns empty / subject / subject++clipping; the sweep receives the boxes and the operation", **DISP)
+for nm, txt in (("forward_poly_multi2", "Polygon x MultiPolygon(2), Difference"), ("forward_multi2_multi1", "MultiPolygon(2) x MultiPolygon(1), Difference"),
+                ("forward_multi2_poly", "MultiPolygon(2) x Polygon, Difference"), ("union_multi1_multi1", "MultiPolygon(1) x MultiPolygon(1), Union")):
+    reg(f"dispatch_{nm}", props={"C01": "quick", "C06": "quick", "C07": "quick"}, domain=DISP_DOM,
+        claim=f"{txt}: one call of the common routine with (self, rhs) as (subject, clipping) in that order; disjoint boxes hand the polygons back unchanged and in order", **DISP)
+for nm in ("subject", "clipping", "both"):
+    reg(f"dispatch_empty_{nm}", props={"C06": "quick", "C03": "quick"}, domain=DISP_DOM,
+        claim=f"empty {nm} operand(s): never reaches the sweep; union/xor and A-minus-empty return the other operand, intersection and empty-minus-A return the empty set", **DISP)
+for k in range(4):
+    reg(f"dispatch_sweep_forest{k}", props={"C02": "quick", "C01": "quick", "C07": "quick" if k else "thorough"}, domain=DISP_DOM,
+        claim="sweep path: subdivide gets the boxes/operation from queue filling; assembly emits one polygon per exterior contour, in order, with exactly the rings its hole_ids name", **DISP)
+reg("dispatch_named_methods", props={"C01": "quick", "C07": "quick"}, domain=DISP_DOM, claim="intersection/union/xor/difference convenience methods call boolean() with the operation they name", **DISP)
 
 # --------------------------------------------------------------------------------------- L-NEST / L-ITER / L-SORT
 for nm in ("flat", "h20", "h21", "h10", "h10_h20"):
@@ -115,12 +123,27 @@ reg("sort3", file="ce/mod.rs", props={"C15": "thorough"}, lemma="L-SORT", inst="
 # --------------------------------------------------------------------------------------- L-DIV
 for f in ("f64", "f32"):
     q = "quick" if f == "f64" else "thorough"
-    reg(f"divide_contract_{f}", file="boolean/h_div.rs", props={"C13": q, "C16": q, "C03": q, "C04": q, "C10": "thorough"}, lemma="L-DIV", inst=f, unwind=4, est_s=400, cap_s=2400, mem_gb=20,
+    reg(f"divide_contract_{f}", file="boolean/h_div.rs", props={"C13": q, "C16": q, "C03": q, "C04": q, "C10": "thorough"}, lemma="L-DIV", inst=f, unwind=4, est_s=400, cap_s=2400, mem_gb=24,
         domain="any lattice segment (N x N window), any lattice point of its bounding box except the endpoints (on or off the segment), real BinaryHeap, real SweepEvent::cmp",
         claim="divide_segment: two new events pushed, two mutually linked non-degenerate pairs meeting at the requested point, left event first in both (corner case 2 swaps roles), new events in the future of the sweep, tags inherited, endpoints unchanged")
-    reg(f"divide_ulp_{f}", file="boolean/h_div.rs", props={"C16": q, "C03": q, "C10": "thorough"}, lemma="L-DIV", inst=f, unwind=5, est_s=400, cap_s=2400, mem_gb=20,
+    reg(f"divide_ulp_{f}", file="boolean/h_div.rs", props={"C16": q, "C03": q, "C10": "thorough"}, lemma="L-DIV", inst=f, unwind=5, est_s=400, cap_s=2400, mem_gb=24,
         domain="one-ulp lattice: x = 1 + i*ulp(1), i < 3, y in 0..3: near-vertical slivers at the resolution limit, where the one-ulp bump of corner case 1 is live code",
         claim="divide_segment at the resolution limit: same contract; the realised point is the requested one or the documented one-ulp bump (the bump itself is the recorded finding KF4)")
+
+# --------------------------------------------------------------------------------------- L-PI
+PI_DIV = ("src/boolean/divide_segment.rs", "divide_segment", "crate::boolean::verif_kani::h_pi::divide_segment_model")
+reg("pi_none", file="boolean/h_pi.rs", props={"C16": "quick", "C13": "quick"}, lemma="L-PI", inst="f64", unwind=3, est_s=60, cap_s=1200, mem_gb=16,
+    native_models=[("src/boolean/segment_intersection.rs", "intersection", "crate::boolean::verif_kani::h_pi::intersection_model_none"), PI_DIV],
+    domain="two lattice segments (N x N), any tags/flags; intersection() modelled to return None, divide_segment by its L-DIV contract (recorder)",
+    claim="possible_intersection, None arm: return code 0, nothing divided, nothing typed")
+reg("pi_point", file="boolean/h_pi.rs", props={"C16": "quick", "C13": "quick", "C04": "quick"}, lemma="L-PI", inst="f64", unwind=3, est_s=120, cap_s=1500, mem_gb=16,
+    native_models=[("src/boolean/segment_intersection.rs", "intersection", "crate::boolean::verif_kani::h_pi::intersection_model_point"), PI_DIV],
+    domain="two lattice segments (N x N) with exactly one common point, any tags; intersection() modelled to return Point(p): p = the endpoint for endpoint hits (L-INT), else ANY float point inside both boxes; divide_segment modelled by its L-DIV contract (recorder)",
+    claim="possible_intersection, Point arm: 0 and untouched when the segments share their left or right endpoint; else 1 and exactly the segments not having the point as an endpoint are divided, all at that one point; no typing")
+for d in ("horizontal", "vertical", "rising", "falling"):
+    reg(f"pi_overlap_{d}", file="boolean/h_pi.rs", props={"C16": "quick", "C13": "quick", "C06": "quick", "C14": "thorough"}, lemma="L-PI", inst="f64", unwind=12, est_s=300, cap_s=2400, mem_gb=20,
+        domain=f"Overlap arm, {d} line: 9 interval configurations (identical, common left x2, common right x2, partial x2, containment x2) x which segment is the subject + same-operand cases; geometry and tags concrete (templates), in/out flags symbolic; REAL intersection, divide_segment and BinaryHeap",
+        claim="possible_intersection, Overlap arm: same operand -> 0 untouched; else every segment is split at exactly the other's endpoints strictly inside it, return code 2 (common left endpoint: upper twin NonContributing, lower twin Same/DifferentTransition by equal/opposite in_out, twins coincide afterwards) or 3")
 
 # --------------------------------------------------------------------------------------- L-INT
 INT = dict(file="boolean/h_int.rs", unwind=3, lemma="L-INT", mem_gb=16, cap_s=1800,
